@@ -25,6 +25,11 @@ def families(rng, nest, big):
                 "![" * d + "a" + "](u)" * d, "[a" * d + "](u)" * d, "[![" * (d // 2) + "a" + "](u)](v)" * (d // 2),
                 "> - " * (d // 2) + "a", "- > " * (d // 2) + "a", "[" * d + "a](u)", "![" * d + "a",
                 "`" * d + "a" + "`" * d, "<" * d, "[a][" * d, "\\[" * d, "&amp;" * d]
+        dd = min(d, 400)
+        out += ["\n".join("> " * i + "-\n" + "> " * i + ">".rstrip() for i in range(dd)).replace("> >", "> >"),
+                "\n".join(("> " * i + "-\n" + ("> " * i).rstrip()) for i in range(dd)),
+                "\n\n".join("  " * i + "- *" for i in range(dd)), "\n\n".join("  " * i + "-" for i in range(dd)),
+                "\n".join("   " * i + "1. " + ("\n" + "   " * i if i % 2 else "") for i in range(min(dd, 200)))]
         out += ["*a **b " * d + "c" + " b** a*" * d, "*" * d + "a" + "*" * d, "~~a **b " * (d // 2) + "c" + " b** a~~" * (d // 2),
                 "_a __b " * d + "c" + " b__ a_" * d]
     return out
